@@ -396,6 +396,26 @@ pub fn gen_hash_project(rng: &mut Rng, k: u64) -> Project {
             );
         }
     }
+    // one project in three keeps its libraries in directories of their own under ONE file name
+    // (gfx/util.asm, sound/util.asm ...): everything that is keyed or named by file stem collides
+    if rng.chance(1, 3) {
+        let n = lib_texts.len();
+        for i in 0..n {
+            main = main.replace(&format!("\"lib{}.asm\"", i), &format!("\"d{}/lib.asm\"", i));
+        }
+        for t in lib_texts.iter_mut() {
+            for j in 0..n {
+                *t = t.replace(&format!("\"lib{}.asm\"", j), &format!("\"../d{}/lib.asm\"", j));
+            }
+            *t = t.replace("\"common.asm\"", "\"../common.asm\"");
+        }
+        p.label.push_str("+same_stems");
+        p.files.insert("main.asm".into(), main.into_bytes());
+        for (i, t) in lib_texts.into_iter().enumerate() {
+            p.files.insert(format!("d{}/lib.asm", i), t.into_bytes());
+        }
+        return p;
+    }
     p.files.insert("main.asm".into(), main.into_bytes());
     for (i, t) in lib_texts.into_iter().enumerate() {
         p.files.insert(format!("lib{}.asm", i), t.into_bytes());
